@@ -1,15 +1,22 @@
-"""T8: the block loops of winner-takes-all and of the filters -> Generated/Blocks.lean
+"""T8: the block loops of winner-takes-all, of the filters and of the multiscale ranges -> Generated/Blocks.lean
 
 Extracted with `ast` only (pandora is not imported):
 
-* disparity.py  `WinnerTakesAll.argmin_split`, `argmax_split`
-* median.py     `MedianFilter.median_filter`
-* bilateral.py  `BilateralFilter.filter_bilateral` (+ the window formula `min(ny_, nx_, int(3 * sigma_space + 1))`)
+* disparity.py           `WinnerTakesAll.argmin_split`, `argmax_split`
+* median.py              `MedianFilter.median_filter`
+* bilateral.py           `BilateralFilter.filter_bilateral` (+ the window formula `min(ny_, nx_, int(3 * sigma_space + 1))`)
+* fixed_zoom_pyramid.py  `FixedZoomPyramid.disparity_range`
 
 For each: the two `np.array_split(<a>, np.arange(start, <dim>, step), axis=k)` calls (start/step literals or a
-local integer constant such as `chunk_size`, the dimension the stop names), the initial values of
-`y_begin`/`x_begin` (0, or `int(<size> / 2)` through a local), and a structural check that both offsets are
-advanced by the chunk's own length (`y_begin += chunk_y.shape[0]`, `x_begin += chunk_x.shape[1]`).
+local integer constant such as `chunk_size`, the dimension the stop names — by its *position* in the
+`<x>, <y> = <a>.shape` unpacking, whatever the names: `disparity_range` calls `shape[0]` "ncol"), the initial
+values of `y_begin`/`x_begin` (0, `int(<size> / 2)` or `int((<size> - 1) / 2)` through a local), and structural
+checks: the loops run over the chunks (`for v in chunks`, `for i, v in enumerate(chunks)` or
+`for k in np.arange(len(chunks))` with the chunk spelled `chunks[k]`), the inner split cuts the outer chunk, both
+offsets are advanced by the chunk's own length (`y_begin += chunk_y.shape[0]`, `x_begin += chunk_x.shape[1]`),
+every block written in the inner loop is `out[y_begin : y_begin + chunk_y.shape[0], x_begin : x_begin +
+chunk_x.shape[1]]` (directly or through `y_end`/`x_end` locals), and — when the offsets derive from a window
+size — the array that is split is `sliding_window(<a>, (<size>, <size>))` of that same size.
 Anything else raises Unsupported.
 """
 from __future__ import annotations
@@ -26,6 +33,8 @@ TARGETS = [
     ("wtaArgmax", "pandora/disparity/disparity.py", "WinnerTakesAll", "argmax_split", None),
     ("median", "pandora/filter/median.py", "MedianFilter", "median_filter", "self._filter_size"),
     ("bilateral", "pandora/filter/bilateral.py", "BilateralFilter", "filter_bilateral", "win_width"),
+    ("multiscaleRange", "pandora/multiscale/fixed_zoom_pyramid.py", "FixedZoomPyramid", "disparity_range",
+     'disp.attrs["window_size"]'),
 ]
 
 
@@ -38,6 +47,8 @@ def _dotted(node) -> str:
         return node.id
     if isinstance(node, ast.Attribute):
         return _dotted(node.value) + "." + node.attr
+    if isinstance(node, ast.Subscript) and isinstance(node.slice, ast.Constant) and isinstance(node.slice.value, str):
+        return _dotted(node.value) + '["' + node.slice.value + '"]'
     return "?"
 
 
@@ -52,6 +63,8 @@ class LoopInfo:
         self.halves = {}  # local name -> (size expression text, divisor)   for  x = int(size / K)
         self.dims = {}  # local name -> index in `<a>.shape`
         self.splits = {}  # target name -> (axis, start, stop dim, step)
+        self.split_arrays = {}  # target name -> ast node of the array that is split
+        self.windows = {}  # local name -> size text   for  x = sliding_window(<a>, (<size>, <size>))
         self.begins = {}  # 'outer'/'inner' -> begin expression
         self.window = None
 
@@ -69,23 +82,44 @@ class LoopInfo:
         if isinstance(node, ast.Name) and node.id in self.consts:
             return ("lit", self.consts[node.id])
         if isinstance(node, ast.Name) and node.id in self.halves:
-            return ("half",) + self.halves[node.id]
+            h = self.halves[node.id]
+            return ("half",) + h if len(h) == 2 else ("halfm",) + h
         raise Unsupported(f"{self.where}: {what}: unsupported initial offset {ast.dump(node)[:60]}")
 
 
 def _half(node):
-    """int(<size> / K) -> (text of size, K)"""
+    """int(<size> / K) -> (text of size, K);   int((<size> - M) / K) -> (text of size, K, M)"""
     if (
         isinstance(node, ast.Call)
         and isinstance(node.func, ast.Name)
         and node.func.id == "int"
         and len(node.args) == 1
+        and not node.keywords
         and isinstance(node.args[0], ast.BinOp)
         and isinstance(node.args[0].op, ast.Div)
         and _int(node.args[0].right)
         and node.args[0].right.value > 0
     ):
-        return (_dotted(node.args[0].left), node.args[0].right.value)
+        num = node.args[0].left
+        if isinstance(num, ast.BinOp):
+            if isinstance(num.op, ast.Sub) and _int(num.right) and num.right.value >= 0 and _dotted(num.left) != "?":
+                return (_dotted(num.left), node.args[0].right.value, num.right.value)
+            return None
+        return (_dotted(num), node.args[0].right.value)
+    return None
+
+
+def _sliding_window(node):
+    """sliding_window(<a>, (<size>, <size>)) -> text of size"""
+    if (
+        isinstance(node, ast.Call) and isinstance(node.func, ast.Name) and node.func.id == "sliding_window"
+        and len(node.args) == 2 and not node.keywords and isinstance(node.args[1], ast.Tuple)
+        and len(node.args[1].elts) == 2
+    ):
+        a, b = (_dotted(e) for e in node.args[1].elts)
+        if a == b and a != "?":
+            return a
+        return "?"
     return None
 
 
@@ -150,6 +184,8 @@ def _scan_simple_assigns(stmts, info):
                     info.consts[tgt.id] = val.value
                 elif _half(val):
                     info.halves[tgt.id] = _half(val)
+                elif _sliding_window(val):
+                    info.windows[tgt.id] = _sliding_window(val)
                 else:
                     w = _window(val, info) if tgt.id == "win_width" else None
                     if w:
@@ -157,6 +193,7 @@ def _scan_simple_assigns(stmts, info):
                     sp = _split_call(val, info)
                     if sp:
                         info.splits[tgt.id] = sp
+                        info.split_arrays[tgt.id] = val.args[0]
 
 
 def _loops(stmts):
@@ -168,9 +205,41 @@ def _loops(stmts):
             yield from _loops(st.body)
 
 
+class ChunkVar:
+    """how the current chunk is spelled inside a block loop: a loop variable, or `chunks[k]`"""
+
+    def __init__(self, name=None, chunks=None, index=None):
+        self.name, self.chunks, self.index = name, chunks, index
+
+    def matches(self, node):
+        if self.name is not None:
+            return isinstance(node, ast.Name) and node.id == self.name
+        return (
+            isinstance(node, ast.Subscript) and isinstance(node.value, ast.Name) and node.value.id == self.chunks
+            and isinstance(node.slice, ast.Name) and node.slice.id == self.index
+        )
+
+    def __str__(self):
+        return self.name if self.name is not None else f"{self.chunks}[{self.index}]"
+
+
 def _loop_var_and_iter(loop, info):
-    """`for i, v in enumerate(chunks)` or `for v in chunks` -> (v, chunks)"""
+    """`for i, v in enumerate(chunks)` or `for v in chunks` -> (v, chunks);
+    `for k in np.arange(len(chunks))` / `range(len(chunks))` -> (chunks[k], chunks)"""
     it, tgt = loop.iter, loop.target
+    if loop.orelse:
+        raise Unsupported(f"{info.where}: block loop with an else clause")
+    if (
+        isinstance(it, ast.Call) and len(it.args) == 1 and not it.keywords
+        and (_is_np(it.func, "arange") or (isinstance(it.func, ast.Name) and it.func.id == "range"))
+    ):
+        ln = it.args[0]
+        if not (
+            isinstance(ln, ast.Call) and isinstance(ln.func, ast.Name) and ln.func.id == "len" and len(ln.args) == 1
+            and isinstance(ln.args[0], ast.Name) and isinstance(tgt, ast.Name)
+        ):
+            raise Unsupported(f"{info.where}: unsupported index loop header")
+        return ChunkVar(chunks=ln.args[0].id, index=tgt.id), ln.args[0].id
     if isinstance(it, ast.Call) and isinstance(it.func, ast.Name) and it.func.id == "enumerate" and len(it.args) == 1:
         it = it.args[0]
         if not (isinstance(tgt, ast.Tuple) and len(tgt.elts) == 2 and isinstance(tgt.elts[1], ast.Name)):
@@ -178,7 +247,57 @@ def _loop_var_and_iter(loop, info):
         tgt = tgt.elts[1]
     if not (isinstance(it, ast.Name) and isinstance(tgt, ast.Name)):
         raise Unsupported(f"{info.where}: unsupported loop header")
-    return tgt.id, it.id
+    return ChunkVar(name=tgt.id), it.id
+
+
+def _is_len_of(node, var, axis):
+    """<var>.shape[axis]"""
+    return (
+        isinstance(node, ast.Subscript) and isinstance(node.value, ast.Attribute) and node.value.attr == "shape"
+        and var.matches(node.value.value) and _int(node.slice) and node.slice.value == axis
+    )
+
+
+def _check_writes(inner_body, info, ybegin, xbegin, yvar, xvar):
+    """every `out[a:b, c:d] = ...` of the inner loop writes the block
+    `[y_begin : y_begin + chunk_y.shape[0], x_begin : x_begin + chunk_x.shape[1]]`"""
+    ends = {}
+    for st in inner_body:
+        if isinstance(st, ast.Assign) and len(st.targets) == 1 and isinstance(st.targets[0], ast.Name):
+            ends[st.targets[0].id] = st.value
+
+    def is_end(node, begin, var, axis):
+        if isinstance(node, ast.Name) and node.id in ends:
+            node = ends[node.id]
+        return (
+            isinstance(node, ast.BinOp) and isinstance(node.op, ast.Add)
+            and isinstance(node.left, ast.Name) and node.left.id == begin and _is_len_of(node.right, var, axis)
+        )
+
+    writes = 0
+    for st in inner_body:
+        if not isinstance(st, (ast.Assign, ast.AugAssign)):
+            continue
+        for tgt in (st.targets if isinstance(st, ast.Assign) else [st.target]):
+            if not isinstance(tgt, ast.Subscript):
+                continue
+            sl = tgt.slice
+            if not (isinstance(sl, ast.Tuple) and len(sl.elts) == 2 and all(isinstance(e, ast.Slice) for e in sl.elts)):
+                raise Unsupported(f"{info.where}: unsupported subscript written inside the inner block loop")
+            if isinstance(st, ast.AugAssign):
+                raise Unsupported(f"{info.where}: a block is updated in place inside the inner block loop")
+            for e, begin, var, axis in ((sl.elts[0], ybegin, yvar, 0), (sl.elts[1], xbegin, xvar, 1)):
+                ok = (
+                    e.step is None and isinstance(e.lower, ast.Name) and e.lower.id == begin
+                    and e.upper is not None and is_end(e.upper, begin, var, axis)
+                )
+                if not ok:
+                    raise Unsupported(
+                        f"{info.where}: a block is not written at [{begin} : {begin} + {var}.shape[{axis}]]"
+                    )
+            writes += 1
+    if writes == 0:
+        raise Unsupported(f"{info.where}: no block is written inside the inner block loop")
 
 
 def _begin_assigns(stmts, info):
@@ -201,13 +320,7 @@ def _advance(stmts, info, var, axis):
             isinstance(st, ast.AugAssign) and isinstance(st.op, ast.Add) and isinstance(st.target, ast.Name)
             and st.target.id.endswith("_begin")
         ):
-            v = st.value
-            ok = (
-                isinstance(v, ast.Subscript) and isinstance(v.value, ast.Attribute) and v.value.attr == "shape"
-                and isinstance(v.value.value, ast.Name) and v.value.value.id == var
-                and _int(v.slice) and v.slice.value == axis
-            )
-            if not ok:
+            if not _is_len_of(st.value, var, axis):
                 raise Unsupported(f"{info.where}: {st.target.id} is not advanced by {var}.shape[{axis}]")
             return st.target.id
     raise Unsupported(f"{info.where}: no offset is advanced by {var}.shape[{axis}]")
@@ -248,15 +361,22 @@ def extract_one(rel, cls_name, meth_name, size_text):
     ax, sx, dx, tx = info.splits[xchunks]
     if (ay, ax) != (0, 1):
         raise Unsupported(f"{where}: outer/inner split axes are {(ay, ax)}, expected (0, 1)")
+    if not yvar.matches(info.split_arrays[xchunks]):
+        raise Unsupported(f"{where}: the inner split does not cut the chunk {yvar} of the outer loop")
     ybegin = _advance(outer.body, info, yvar, 0)
     xbegin = _advance(inner.body, info, xvar, 1)
+    _check_writes(inner.body, info, ybegin, xbegin, yvar, xvar)
     b_outer = _begin_assigns(fn.body, info)
     b_inner = _begin_assigns(outer.body, info)
     if ybegin not in b_outer or xbegin not in b_inner:
         raise Unsupported(f"{where}: initial value of {ybegin}/{xbegin} not found")
     for b in (b_outer[ybegin], b_inner[xbegin]):
-        if b[0] == "half" and b[1] != size_text:
+        if b[0] in ("half", "halfm") and b[1] != size_text:
             raise Unsupported(f"{where}: offset derived from {b[1]!r}, expected {size_text!r}")
+    if size_text is not None:
+        arr = info.split_arrays[ychunks]
+        if not (isinstance(arr, ast.Name) and info.windows.get(arr.id) == size_text):
+            raise Unsupported(f"{where}: the array that is split is not sliding_window(<a>, ({size_text}, {size_text}))")
     out = {
         "startY": sy, "stepY": ty, "stopYDim": dy, "startX": sx, "stepX": tx, "stopXDim": dx,
         "beginY": list(b_outer[ybegin]), "beginX": list(b_inner[xbegin]),
@@ -273,20 +393,22 @@ def extract():
 def _begin_lean(b):
     if b[0] == "lit":
         return str(b[1])
+    if b[0] == "halfm":
+        return f"(size - {b[3]}) / {b[2]}"
     return f"size / {b[2]}"
 
 
 def render(data) -> str:
     lines = [
         "-- GENERATED by translator/gen_blocks.py from pandora/disparity/disparity.py, pandora/filter/median.py,",
-        "-- pandora/filter/bilateral.py. Do not edit.",
+        "-- pandora/filter/bilateral.py, pandora/multiscale/fixed_zoom_pyramid.py. Do not edit.",
         "import PandoraModel.Model.Blocks",
         "namespace Pandora.Generated.Blocks",
         "open Pandora.Blocks",
         "",
     ]
     for name, d in data.items():
-        param = any(b[0] == "half" for b in (d["beginY"], d["beginX"]))
+        param = any(b[0] in ("half", "halfm") for b in (d["beginY"], d["beginX"]))
         head = f"def {name} (size : Nat) : Split :=" if param else f"def {name} : Split :="
         lines.append(head)
         lines.append(
